@@ -304,6 +304,14 @@ def explore(item):
                 problems.append('global repository: the second load returned a different model object')
             if parses:
                 problems.append('global repository: the second load parsed %s again' % sorted(set(parses)))
+            # the same file under another spelling of its path
+            try:
+                third = mm.model_from_file(os.path.join(tmp, '.', 'main'))
+            except Exception as e:  # noqa
+                return ('bad', problems + ['load of ./main raised %s: %s' % (type(e).__name__, e)], None)
+            if third is not model or parses:
+                problems.append('global repository: a load of the same file spelled <dir>/./main returned %s and parsed %s'
+                                % ('the cached model' if third is model else 'a different model object', sorted(set(parses))))
         else:
             if again is model:
                 problems.append('no global repository: the second load returned the cached model')
